@@ -1185,14 +1185,14 @@ class Literal(Variable[T]):
         original_data = data
         data = [data]
         if not type_:
-            if hasattr(original_data, "__next__"):
-                # a one-shot iterator: guessing the type from its first value would consume the user's data
+            if isinstance(original_data, (list, tuple, set, frozenset, dict, range)):
+                first_value = next(iter(original_data), None)
+            elif is_iterable(original_data):
+                # a user's iterable (a one-shot iterator, a lazily loading collection): guessing the type from its
+                # first value would call its methods and consume or load the user's data while the query is built
                 first_value = None
             else:
-                original_data_lst = make_list(original_data)
-                first_value = (
-                    original_data_lst[0] if len(original_data_lst) > 0 else None
-                )
+                first_value = original_data
             type_ = type(first_value) if first_value is not None else None
         if name is None:
             if type_:
